@@ -14,13 +14,17 @@ import (
 	"context"
 	"encoding/json"
 	"fmt"
+	"math/rand"
 	"strings"
 
 	"github.com/dolthub/dolt/go/libraries/doltcore/doltdb"
+	"github.com/dolthub/dolt/go/libraries/doltcore/doltdb/durable"
 	"github.com/dolthub/dolt/go/libraries/doltcore/merge"
 	"github.com/dolthub/dolt/go/libraries/doltcore/ref"
 	"github.com/dolthub/dolt/go/libraries/doltcore/sqle/dsess"
 	"github.com/dolthub/dolt/go/libraries/doltcore/table/editor"
+	"github.com/dolthub/dolt/go/store/prolly/tree"
+	"github.com/dolthub/dolt/go/store/val"
 
 	"verifharness/hk"
 	"verifharness/util"
@@ -39,6 +43,19 @@ type Case struct {
 	Base  []Row `json:"base"`
 	Left  []Row `json:"left"`  // full content of the left branch
 	Right []Row `json:"right"` // full content of the right branch
+	// directed, boundary-aware cases: the harness builds a multi-chunk base table itself, reads the leaf chunk
+	// boundaries of its primary index and places the edits of the two branches on / around boundary keys
+	// (all random choices from Seed); the three contents are reported in Obs.In
+	Scen    string `json:"scen"`
+	Seed    int64  `json:"seed"`
+	N       int    `json:"n"`
+	Variant int    `json:"variant"`
+}
+
+type In struct {
+	Base  []Row `json:"base"`
+	Left  []Row `json:"left"`
+	Right []Row `json:"right"`
 }
 
 type Stats struct {
@@ -53,6 +70,9 @@ type TableObs struct {
 }
 
 type Obs struct {
+	In       *In                 `json:"in,omitempty"`
+	Bounds   []int               `json:"bounds,omitempty"` // last pk of every leaf chunk of the base primary index
+	Note     string              `json:"note,omitempty"`
 	Tables   map[string]TableObs `json:"tables"`
 	MergeErr string              `json:"merge_err"`
 	MergeRow []string            `json:"merge_row"`
@@ -120,12 +140,46 @@ func Run(raw json.RawMessage) (any, error) {
 	); err != nil {
 		return nil, err
 	}
+	o := Obs{Tables: map[string]TableObs{}}
+	if c.Scen != "" {
+		r := rand.New(rand.NewSource(c.Seed))
+		c.Base = nil
+		for i := 1; i <= c.N; i++ {
+			pk := 2 * i
+			a, b := (pk*3)%500, (pk*7)%500
+			c.Base = append(c.Base, Row{Pk: pk, A: &a, B: &b})
+		}
+		_ = r
+	}
 	for _, tbl := range tables {
-		if err := must(edits(tbl, nil, c.Base)...); err != nil {
+		if c.Scen != "" {
+			// multi-row inserts
+			for i := 0; i < len(c.Base); i += 200 {
+				var vals []string
+				for _, rw := range c.Base[i:min(i+200, len(c.Base))] {
+					vals = append(vals, fmt.Sprintf("(%d, %s, %s)", rw.Pk, lit(rw.A), lit(rw.B)))
+				}
+				if err := must("insert into " + tbl + " values " + strings.Join(vals, ",")); err != nil {
+					return nil, err
+				}
+			}
+		} else if err := must(edits(tbl, nil, c.Base)...); err != nil {
 			return nil, err
 		}
 	}
-	if err := must("call dolt_commit('-Am', 'base')", "call dolt_checkout('-b', 'other')"); err != nil {
+	if err := must("call dolt_commit('-Am', 'base')"); err != nil {
+		return nil, err
+	}
+	if c.Scen != "" {
+		bounds, err := leafBounds(s, env.DBName, "t")
+		if err != nil {
+			return nil, err
+		}
+		o.Bounds = bounds
+		c.Left, c.Right, o.Note = directed(c, bounds)
+		o.In = &In{Base: c.Base, Left: c.Left, Right: c.Right}
+	}
+	if err := must("call dolt_checkout('-b', 'other')"); err != nil {
 		return nil, err
 	}
 	for _, tbl := range tables {
@@ -145,7 +199,6 @@ func Run(raw json.RawMessage) (any, error) {
 		return nil, err
 	}
 
-	o := Obs{Tables: map[string]TableObs{}}
 	stats := map[string]*Stats{}
 	// merge statistics: merge.MergeCommits on the two branch heads (what dolt_merge calls)
 	func() {
@@ -209,4 +262,125 @@ func Run(raw json.RawMessage) (any, error) {
 		o.Tables[tbl] = to
 	}
 	return o, nil
+}
+
+// last pk of every leaf chunk of a table's primary index (working root of the session)
+func leafBounds(s *util.Session, db, tbl string) ([]int, error) {
+	roots, ok := dsess.DSessFromSess(s.Ctx.Session).GetRoots(s.Ctx, db)
+	if !ok {
+		return nil, fmt.Errorf("no roots for %s", db)
+	}
+	t, ok, err := roots.Working.GetTable(s.Ctx, doltdb.TableName{Name: tbl})
+	if err != nil || !ok {
+		return nil, fmt.Errorf("table %s: %v", tbl, err)
+	}
+	idx, err := t.GetRowData(s.Ctx)
+	if err != nil {
+		return nil, err
+	}
+	m, err := durable.ProllyMapFromIndex(idx)
+	if err != nil {
+		return nil, err
+	}
+	var out []int
+	err = m.WalkNodes(s.Ctx, func(_ context.Context, nd *tree.Node) error {
+		if nd.IsLeaf() && nd.Count() > 0 {
+			k, _ := m.KeyDesc().GetInt32(0, val.Tuple(nd.GetKey(nd.Count()-1)))
+			out = append(out, int(k))
+		}
+		return nil
+	})
+	return out, err
+}
+
+func rowsWith(rows []Row, pk int, f func(r Row) *Row) []Row {
+	var out []Row
+	for _, r := range rows {
+		if r.Pk == pk {
+			if nr := f(r); nr != nil {
+				out = append(out, *nr)
+			}
+			continue
+		}
+		out = append(out, r)
+	}
+	return out
+}
+
+func bump(p *int, d int) *int { v := *p + d; return &v }
+
+// directed builds the two branch contents around the boundary keys K1 < K2 (last pks of two consecutive leaf chunks).
+//   boundary1 (one side edits exactly the last key of a chunk the other side changed elsewhere):
+//     left: shifts its chunk boundaries just before (deletes K1 / inserts K1+1 / deletes a key of the previous chunk)
+//           and edits K2 (update / delete); right: updates a key in the middle of (K1, K2)
+//   boundary2 (both sides edit the last key of a chunk differently):
+//     left: updates K2; right: shifts (as above) and updates K2 on the same cell (conflict) or the other cell (cell-wise merge)
+//   the -m variants mirror left and right.
+func directed(c Case, bounds []int) (left, right []Row, note string) {
+	r := rand.New(rand.NewSource(c.Seed + 1))
+	left, right = append([]Row{}, c.Base...), append([]Row{}, c.Base...)
+	if len(bounds) < 3 {
+		return left, right, "too-few-chunks"
+	}
+	i := r.Intn(len(bounds) - 2)
+	k0 := 0
+	if i > 0 {
+		k0 = bounds[i-1]
+	}
+	k1, k2 := bounds[i], bounds[i+1]
+	mid := k1 + 2*(1+r.Intn(max(1, (k2-k1)/2-1)))
+	if mid >= k2 {
+		mid = k1 + 2
+	}
+	shift := func(rows []Row) []Row {
+		switch c.Variant % 3 {
+		case 0: // delete the boundary key of the previous chunk
+			return rowsWith(rows, k1, func(Row) *Row { return nil })
+		case 1: // insert a new key right after the previous boundary (odd pk: a gap)
+			a, b := 7, 9
+			var out []Row
+			for _, rw := range rows {
+				out = append(out, rw)
+				if rw.Pk == k1 {
+					out = append(out, Row{Pk: k1 + 1, A: &a, B: &b})
+				}
+			}
+			return out
+		default: // delete a key inside the previous chunk
+			pk := k0 + 2*(1+r.Intn(max(1, (k1-k0)/2-1)))
+			return rowsWith(rows, pk, func(Row) *Row { return nil })
+		}
+	}
+	editK2 := func(rows []Row, onA bool, d int, del bool) []Row {
+		return rowsWith(rows, k2, func(rw Row) *Row {
+			if del {
+				return nil
+			}
+			if onA {
+				rw.A = bump(rw.A, d)
+			} else {
+				rw.B = bump(rw.B, d)
+			}
+			return &rw
+		})
+	}
+	var x, y []Row // x: the side that is at row level (shifted), y: the side that holds the chunk-level patch
+	switch c.Scen {
+	case "boundary1", "boundary1-m":
+		x = editK2(shift(left), true, 100, c.Variant%2 == 1 && c.Variant >= 3)
+		y = rowsWith(right, mid, func(rw Row) *Row { rw.B = bump(rw.B, 200); return &rw })
+	case "boundary2", "boundary2-m":
+		y = editK2(left, true, 100, false)
+		x = editK2(shift(right), c.Variant < 3, 300, false)
+	default:
+		return left, right, "unknown-scenario"
+	}
+	if c.Scen == "boundary1" || c.Scen == "boundary2-m" {
+		return x, y, ""
+	}
+	if c.Scen == "boundary1-m" {
+		return y, x, ""
+	}
+	// boundary2: left holds the range (y), right is shifted (x)
+	return y, x, ""
 }
